@@ -44,6 +44,14 @@ for lf in sorted(glob.glob(os.path.join(ROOT, "build", "seedtest*.log")), key=os
         m = re.match(r"(\S+) (\{.*\})", line.strip())
         if m:
             res[m.group(1)] = json.loads(m.group(2))
+# results of individual runs (tools/seedtest_nosetup.py writes one json per run; a later run of a seed for one property updates
+# that property only), and the stored results of earlier sessions (seeded/results.json, committed: build/ is not)
+for jf in sorted(glob.glob(os.path.join(ROOT, "build", "seedtest_*.json")), key=os.path.getmtime):
+    for sid, r in json.load(open(jf)).items():
+        if isinstance(r, dict) and "status" not in r:
+            res.setdefault(sid, {}).update(r)
+stored_p = os.path.join(ROOT, "seeded", "results.json")
+stored = json.load(open(stored_p)) if os.path.exists(stored_p) else {"results": {}}
 print("| seed | breaks | needs to manifest | result of the registered quick checks |")
 print("|---|---|---|---|")
 for d in sorted(glob.glob(os.path.join(ROOT, "seeded", "*"))):
@@ -56,12 +64,17 @@ for d in sorted(glob.glob(os.path.join(ROOT, "seeded", "*"))):
     if "status" in r:
         out = r["status"]
     else:
-        out = "; ".join("%s: %s" % (k, "VIOLATION" if v["exit"] == 1 else ("silent" if v["exit"] == 0 else "infra")) for k, v in r.items()) or "not run yet"
+        fresh = {k: ("VIOLATION" if v["exit"] == 1 and v.get("lines") else ("silent" if v["exit"] == 0 else None)) for k, v in r.items()}
+        old = dict(x.split(": ", 1) for x in stored["results"].get(sid, "").split(" (")[0].split("; ") if ": " in x)
+        old.update({k: v for k, v in fresh.items() if v})
+        out = "; ".join("%s: %s" % kv for kv in old.items()) or "not run yet"
+        stored["results"][sid] = out
     if not m.get("confirmed", True):
         out += " (no longer a violation on the repaired tree: see meta.json)"
     props = m["property"] if isinstance(m["property"], str) else ",".join(m["property"])
     print("| %s | %s | %s | %s |" % (sid, props, m.get("needs_to_manifest", ""), out))
 
+json.dump(stored, open(stored_p, "w"), indent=1)
 print("\n### 11.8 Known findings (genuine defects recorded, not repaired; `known_findings.json`)\n")
 for f in kf["findings"]:
     print("* **%s** `%s` - %s\n  Example: `%s`.\n  Theorems: %s (the statement that fails) / %s (what holds)." % (
